@@ -473,6 +473,6 @@ package p9p
 //@ requires TABLE && QUIET
 //@ ensures inv: TABLE
 //@ ensures unbound_parent: !old(BOUND(parent)) || parent == NOFID ==> err != nil
-//@ ensures failed: err != nil ==> TABLE_SAME && SAMEREL
+//@ ensures failed: err != nil ==> (TABLE_SAME && SAMEREL) || (old(BOUND(parent)) && !smhas(REFS, parent) && OTHERS_SAME(parent) && released(old(R(parent).Ent)) && (forall k int :: {gk(released, k)} gk(released, k) != old(gk(released, k)) ==> k == key(old(R(parent).Ent)) || !was(issued, k)))
 //@ ensures created: err == nil ==> old(BOUND(parent)) && BOUND(parent) && smval(REFS, parent) == old(smval(REFS, parent)) && NEWENT(R(parent).Ent) && R(parent).File != nil && R(parent).Mode == mode && released(old(R(parent).Ent)) && ONLYREL(old(R(parent).Ent)) && OTHERS_SAME(parent)
 //@ ensures locks: UNLOCKED
